@@ -38,14 +38,14 @@ type step struct {
 }
 
 type plan struct {
-	Mode    string // topics | regex | partitions
-	Brokers int
-	Names   []string // universe of topic names
-	Seeded  []bool
-	Parts   []int32
+	Mode     string // topics | regex | partitions
+	Brokers  int
+	Names    []string // universe of topic names
+	Seeded   []bool
+	Parts    []int32
 	Internal []bool
-	Init    []int   // initially selected topic indices (topics mode) ; partitions mode: initial partitions of these topics (partition 0 and maybe 1)
-	Steps   []step
+	Init     []int // initially selected topic indices (topics mode) ; partitions mode: initial partitions of these topics (partition 0 and maybe 1)
+	Steps    []step
 }
 
 var include = regexp.MustCompile(`^r-`)
@@ -72,7 +72,7 @@ func genPlan(t *rapid.T) plan {
 	kinds := []string{"mktopic", "mktopic", "addparts", "sleep", "sleep"}
 	switch p.Mode {
 	case "topics":
-		kinds = append(kinds, "addtopic", "addtopic", "purge", "deltopic")
+		kinds = append(kinds, "addtopic", "addtopic", "purge", "deltopic", "rmpart")
 	case "regex":
 		kinds = append(kinds, "deltopic")
 	case "partitions":
@@ -103,7 +103,7 @@ type returned struct {
 func TestConsumesExactlySelected(t *testing.T) {
 	rapid.Check(t, func(rt *rapid.T) {
 		p := genPlan(rt)
-		var nRemoved, nLate int
+		var nRemoved, nLate, nRmInTopics int
 		bubble.Run(t, rt, func(e *bubble.Env) {
 			seed := map[string]int32{}
 			exists := map[string]int32{} // topic -> partition count (existing topics)
@@ -145,6 +145,12 @@ func TestConsumesExactlySelected(t *testing.T) {
 			var mu sync.Mutex
 			selTopic := map[string][]interval{} // topics / regex mode
 			selPart := map[tp][]interval{}      // partitions mode
+			// topics mode: RemoveConsumePartitions on a partition of a ConsumeTopics topic. The removed
+			// partition must not be returned again until the topic is added again; what happens to the
+			// topic's other (and future) partitions is not documented, so the topic is exempt from the
+			// liveness clause until then.
+			rmIv := map[tp][]interval{}
+			rmAmbiguous := map[string]bool{}
 			open := func(m map[string][]interval, k string, at int) {
 				if iv := m[k]; len(iv) > 0 && iv[len(iv)-1].to == -1 {
 					return
@@ -295,6 +301,12 @@ func TestConsumesExactlySelected(t *testing.T) {
 					at := e.Log.Add("addtopic", 0, n, nil, 0, 0)
 					mu.Lock()
 					open(selTopic, n, at)
+					for k, iv := range rmIv {
+						if k.T == n && len(iv) > 0 && iv[len(iv)-1].to == -1 {
+							iv[len(iv)-1].to = at
+						}
+					}
+					delete(rmAmbiguous, n)
 					mu.Unlock()
 					cl.AddConsumeTopics(n)
 				case "purge":
@@ -329,7 +341,15 @@ func TestConsumesExactlySelected(t *testing.T) {
 					cl.RemoveConsumePartitions(map[string][]int32{n: {s.Part}})
 					at := e.Log.Add("rmpart-done", int64(s.Part), n, nil, 0, 0)
 					mu.Lock()
-					closeP(k, at)
+					if p.Mode == "topics" {
+						if iv := rmIv[k]; len(iv) == 0 || iv[len(iv)-1].to != -1 {
+							rmIv[k] = append(rmIv[k], interval{at, -1})
+						}
+						rmAmbiguous[n] = true
+						nRmInTopics++
+					} else {
+						closeP(k, at)
+					}
 					mu.Unlock()
 					nRemoved++
 				case "sleep":
@@ -378,6 +398,11 @@ func TestConsumesExactlySelected(t *testing.T) {
 					}
 					fail("record %d of %s returned by the poll spanning log #%d..#%d, but that partition %s", r.id, r.tp, r.pollFrom, r.pollTo, why)
 				}
+				for _, iv := range rmIv[r.tp] {
+					if r.pollFrom > iv.from && (iv.to == -1 || r.pollTo < iv.to) {
+						fail("record %d of %s returned by the poll spanning log #%d..#%d, but RemoveConsumePartitions for that partition had returned at log #%d and the topic was not added again before the poll", r.id, r.tp, r.pollFrom, r.pollTo, iv.from)
+					}
+				}
 			}
 			// (b) every selected partition of an existing topic is being consumed at the end
 			recent := map[tp]bool{}
@@ -390,7 +415,7 @@ func TestConsumesExactlySelected(t *testing.T) {
 				for pt := int32(0); pt < np; pt++ {
 					k := tp{n, pt}
 					iv := selected(k)
-					if len(iv) == 0 || iv[len(iv)-1].to != -1 {
+					if len(iv) == 0 || iv[len(iv)-1].to != -1 || rmAmbiguous[n] {
 						continue
 					}
 					if !recent[k] {
@@ -408,6 +433,9 @@ func TestConsumesExactlySelected(t *testing.T) {
 		ev.Class("mode:" + p.Mode)
 		if nRemoved > 0 {
 			ev.Class("removal-or-purge")
+		}
+		if nRmInTopics > 0 {
+			ev.Class("remove-partition-of-ConsumeTopics-topic")
 		}
 		ev.SampleIf(func() any { return map[string]any{"mode": p.Mode, "steps": ks, "init": p.Init, "seeded": p.Seeded} })
 	})
